@@ -175,6 +175,28 @@ def judge_sample_callstack(w, shape):
     return None
 
 
+def judge_sample_thread_state(w, about):
+    evs = [E.ev('PERF_Event', 1, (0x1, 7, 0, 0)), E.ev('PERF_THD_Data', 0, (55, about, 0x66, w)), E.ev('PERF_Event', 2, (0, 0, 0, 0))]
+    try:
+        out = [t for t in TracesParser(E.codes(), {}, {}).feed_generator(E.restamp(evs)) if type(t).__name__ == 'PerfEvent' and t.ktraces[0].func_qualifier == 1]
+        if len(out) != 1:
+            return ('sample-count', {'n': len(out)})
+        info = out[0].th_info
+        shown = None if info is None else set(re.findall(r'\bKPERF_TI_[A-Z]+\b', E.stable_str(info) + ' ' + repr(info)))
+    except Exception as ex:
+        return ('raised:' + type(ex).__name__, {'error': repr(ex)[:200]})
+    table = DW.KPERF_TI
+    dec = declared('perf.KperfTiState')
+    want = {n for n in dec if n in table and table[n] and (table[n] & w & 0xffff) == table[n]}
+    if shown is None:
+        return ('declared-set-bit-not-shown', {'word': hex(w), 'sample_thread_info': None, 'expected': sorted(want)}) if want else None
+    for n in shown - want:
+        return ('name-shown-for-bit-not-set' if n in table else 'name-not-a-darwin-constant', {'name': n, 'word': hex(w)})
+    for n in want - shown:
+        return ('declared-set-bit-not-shown', {'name': n, 'word': hex(w), 'shown': sorted(shown)})
+    return None
+
+
 def judge_open(site, w):
     decoder, idx = OPEN_SITES[site]
     s = list(BASE_S)
@@ -283,7 +305,7 @@ def judge_ioctl(w):
 class C11(Check):
     pid = 'C11'
     level = 'exploration'
-    rule = ('per symbolic family, through a decoder that shows it: every subset of the declared bits plus two undeclared bits (the callstack family also as the state word of the SAMPLE that owns the header, header announcing 0 frames / 2 frames / 2 frames whose data was lost) '
+    rule = ('per symbolic family, through a decoder that shows it: every subset of the declared bits plus two undeclared bits (the callstack family also as the state word of the SAMPLE that owns the header, header announcing 0 frames / 2 frames / 2 frames whose data was lost; the thread-state family also as the thread info of the SAMPLE whose window holds the record, about the logging thread / another thread / thread 0) '
             '(MSG_ and AST_: Hamming balls of radius 3 around 0 and around all-bits in quick, the full 2^22 / 2^24 in thorough); '
             'open flags (3 call sites; 7 further sites from the frozen site table with Hamming balls of radius 2): every subset of 12 flag bits + 2 access-mode bits + 2 undeclared; file modes (3 call '
             'sites; 5 further sites likewise): every subset of the 12 permission bits x all 16 values of the S_IFMT field x 1 undeclared bit; packed fields '
@@ -322,6 +344,7 @@ class C11(Check):
                 out.append(('stat', site, t))
         out.append(('vmprot-pairs',))
         out.append(('sample-callstack',))
+        out.append(('sample-thread-state',))
         for k in range(4):
             out.append(('ioctl', 'hi', k))
         for k in range(8):
@@ -388,6 +411,16 @@ class C11(Check):
                     acc.case(nontrivial=bin(w).count('1') >= 2, transitions=4, outcome=h64(('scs', w, shape)) if w < 64 else None)
                     if bad:
                         acc.violation(f'{bad[0]}@CALLSTACK@sample', {'kind': 'sample-callstack', 'word': hex(w), 'shape': shape}, bad[1])
+        elif kind == 'sample-thread-state':
+            # the thread-state word of a SAMPLE (PerfEvent.th_info) is that of the thread-data record in its window, whichever thread the
+            # record is about (the logging thread itself, another thread as in profile-every-thread mode, thread 0)
+            bits, und = family_bits('KPERF_TI')
+            for w in bit_subsets(bits + und):
+                for about in (1, 2, 0):
+                    bad = judge_sample_thread_state(w, about)
+                    acc.case(nontrivial=bin(w).count('1') >= 2, transitions=3, outcome=h64(('sts', w, about)) if w < 64 else None)
+                    if bad:
+                        acc.violation(f'{bad[0]}@KPERF_TI@sample', {'kind': 'sample-thread-state', 'word': hex(w), 'about': about}, bad[1])
         elif kind == 'open':
             _, site, mode = desc
             dec = declared('bsd.BscOpenFlags')
@@ -432,6 +465,9 @@ class C11(Check):
             acc = Acc()
             self.run_shard(('vmprot-pairs',), acc)
             return [(sig, v['cases'][0][1]) for sig, v in acc.violations.items()]
+        if k == 'sample-thread-state':
+            bad = judge_sample_thread_state(int(case['word'], 16), case['about'])
+            return [(f"{bad[0]}@KPERF_TI@sample", bad[1])] if bad else []
         if k == 'sample-callstack':
             bad = judge_sample_callstack(int(case['word'], 16), case['shape'])
             return [(f"{bad[0]}@CALLSTACK@sample", bad[1])] if bad else []
